@@ -481,3 +481,22 @@ func init() {
 		},
 	})
 }
+
+func init() {
+	register(&Property{
+		ID: "C26",
+		Explanation: "Decides structural necessary conditions of 'graph algorithms return correct components, closures and paths' on util/graph: MINMAX(update): every low-link update of Tarjan compares against the cell it updates. SIBLING(tarjan-update): the update after the recursive descent propagates lowLink[child]. PAIR(scc-stack): a vertex is pushed and marked onStack on entry, a component is emitted exactly under lowLink[v] == index[v], its members are cleared from onStack before the stack is cut back. WARSHALL(pivot-outermost): Matrix.Closure tests HasEdge(x, pivot) and HasEdge(pivot, y) with the pivot in the outermost loop and adds (x, y). CODEC(matrix-cell): AddEdge/HasEdge address bit i*n+e and Graph decodes (v/n, v%n). TRANSPOSE(direction): for an edge from -> to, the list of `to` is sized by counting `to` and receives `from`. SENTINEL(dfs-height): LongestPath marks in-progress vertices with -1, sets the cycle flag exactly on meeting one, and returns nil under that flag. INPLACE(write-behind-read): no in-place filter of util/graph writes ahead of its read cursor. " +
+			"Not decided: that the components, closure and paths are the right ones on every graph (reverse topological order, maximality of the path) - algorithmic, quantified over runtime graphs.",
+		Rules: []string{"MINMAX(update)", "SIBLING(tarjan-update)", "PAIR(scc-stack)", "WARSHALL(pivot-outermost)", "CODEC(matrix-cell)", "TRANSPOSE(direction)", "SENTINEL(dfs-height)"},
+		Run: func(c *Ctx) {
+			ruleMINMAX(c, "util/graph")
+			c.MinCount("MINMAX(update)", "util/graph.", 2)
+			ruleTARJANSIB(c)
+			ruleSCCSTACK(c)
+			ruleWARSHALL(c)
+			ruleMATRIXCELL(c)
+			ruleTRANSPOSE(c)
+			ruleLONGESTPATH(c)
+		},
+	})
+}
